@@ -266,13 +266,25 @@ def gen_case(rng, family=None, logic=None, cls=None, deep=None, mode=None, Fkind
     mut = rng.choice(['add-state', 'add-foreign', 'clear', 'discard', 'update-all'])
     return {'family': family, 'states': [enc(s) for s in states], 'S0': kd['S0'], 'R': [list(e) for e in kd['R']],
             'labels': labels, 'logic': logic, 'formula': f, 'mode': mode, 'F': F, 'cls': cls, 'mut': mut,
-            'negated_followup': logic != 'LTL' and cls != 'ool' and rng.random() < 0.5}
+            'negated_followup': logic != 'LTL' and cls != 'ool' and rng.random() < 0.5,
+            'relabel': rng.random() < 0.3}
 
 
 def build(case):
     states = [dec(s) for s in case['states']]
     K = mk_py_kripke(list(states), [states[i] for i in case['S0']], [(states[a], states[b]) for a, b in case['R']],
                      {states[int(i)]: [dec(x) for x in ls] for i, ls in case['labels'].items()})
+    if case.get('relabel'):
+        # the labelling is (re)installed through the public replace_labelling_function: equal label sets become ONE shared set
+        # object, and the caller's dict also carries entries for objects that are NOT states (a design-wide labelling dict)
+        groups, L = {}, {}
+        for s in K.states():
+            key = frozenset(K.labels(s))
+            L[s] = groups.setdefault(key, set(key))
+        allab = set(a for ls in L.values() for a in ls)
+        L[('#not-a-state', 1)] = set(allab) | {'p', 'q'}
+        L['#ghost'] = set(allab)
+        K.replace_labelling_function(L)
     num = {s: i for i, s in enumerate(K._next)}
     return K, states, num
 
@@ -280,7 +292,7 @@ def build(case):
 def ksx(K, num):
     g = [[num[k], [num[d] for d in ds]] for k, ds in K._next.items()]
     init = [num[s] for s in K.S0]
-    lab = [[num[s], [Q(a) for a in sorted(set(labname(a) for a in K._labels[s]))]] for s in K._labels]
+    lab = [[num[s], [Q(a) for a in sorted(set(labname(a) for a in K._labels[s]))]] for s in K._labels if s in K._next]
     return [g, init, lab]
 
 
